@@ -119,6 +119,9 @@ SUITE = {"C01": "parts", "C03": "values", "C04": "lines", "C05": "join", "C06": 
 FRESH = {"C01", "C03", "C04", "C05", "C06", "C07", "C08", "C09", "C10", "C13", "C14", "C15", "C17", "C18", "C19", "C20"}
 
 
+VIEW = {"C08", "C10", "C17", "C18", "C19", "C20"}
+
+
 def suffix(pid):
     out = ""
     if pid in SUITE:
@@ -127,6 +130,9 @@ def suffix(pid):
     if pid in FRESH:
         out += ("; FRESH: every behaviour of spec/Fresh.tla (calls, caller mutations, provider switches; shared- and stale-memo variants refuted by "
                 "TLC) replayed on the property's functions, every live handle compared after every step with views computed in a fresh interpreter")
+    if pid in VIEW:
+        out += ("; VIEW: every edit history of spec/View.tla (interface edits, edits through held lists, views; both memo variants refuted by TLC) "
+                "replayed on the property's objects, each view compared with the view of an object built from scratch with the model's content")
     return out
 
 
